@@ -10,6 +10,7 @@ use vstd::std_specs::convert::*;
 use vstd::std_specs::ops::*;
 use crate::prelude::*;
 use crate::shim::*;
+use crate::vs::*;
 
 pub mod stdlib {
     pub use core::{cmp, convert, default, fmt, hash, mem, ops, iter, slice, str, f32, f64};
@@ -37,6 +38,8 @@ pub use self::num_traits::{One, Signed, ToPrimitive, Zero};
 #[allow(unused_imports)] pub use self::rounding::*;
 #[allow(unused_imports)] pub use self::context::*;
 #[allow(unused_imports)] use self::arithmetic::*;
+
+broadcast use {crate::ax::axiom_ref_into_self, crate::ax::axiom_ref_into_self_obeys, crate::shim::axiom_spec_magnitude, crate::vs::val_algebra_core};
 
 // ------------------------------------------------------------------ scale bound `B`
 /// machine-range precondition on scales of arithmetic contracts: |s| <= 2^61
@@ -85,28 +88,6 @@ impl<'a> Clone for BigDecimalRef<'a> {
 impl<'a> Copy for BigDecimalRef<'a> {}
 impl Eq for BigDecimal {}
 impl<'a> Eq for BigDecimalRef<'a> {}
-
-// ------------------------------------------------------------------ value relations (cross-multiplied, integers only)
-/// a.i * 10^-a.s == b.i * 10^-b.s
-pub open spec fn same_val(ai: int, a_s: int, bi: int, bs: int) -> bool {
-    let m = imax(a_s, bs);
-    ai * pow10(m - a_s) == bi * pow10(m - bs)
-}
-/// r == a + b
-pub open spec fn is_sum(ri: int, rs: int, ai: int, a_s: int, bi: int, bs: int) -> bool {
-    let m = imax(rs, imax(a_s, bs));
-    ri * pow10(m - rs) == ai * pow10(m - a_s) + bi * pow10(m - bs)
-}
-/// r == a * b
-pub open spec fn is_prod(ri: int, rs: int, ai: int, a_s: int, bi: int, bs: int) -> bool {
-    let m = imax(rs, a_s + bs);
-    ri * pow10(m - rs) == (ai * bi) * pow10(m - (a_s + bs))
-}
-/// sign of (a - b) as an Ordering
-pub open spec fn val_cmp(ai: int, a_s: int, bi: int, bs: int) -> Ordering {
-    let m = imax(a_s, bs);
-    ord_of(ai * pow10(m - a_s), bi * pow10(m - bs))
-}
 
 // ------------------------------------------------------------------ rounding oracle (from the RoundingMode documentation)
 /// c: sign of (discarded tail - half unit); odd: parity of the kept last digit
@@ -169,6 +150,32 @@ pub open spec fn into_ref<'a, T: Into<BigDecimalRef<'a>>>(x: T) -> BigDecimalRef
 pub open spec fn into_ok<'a, T: Into<BigDecimalRef<'a>>>(x: T) -> bool {
     <T as IntoSpec<BigDecimalRef<'a>>>::obeys_into_spec()
 }
+pub mod ax {
+    use vstd::prelude::*;
+    use vstd::std_specs::convert::*;
+    use crate::*;
+    use crate::prelude::*;
+    use crate::shim::*;
+
+    /// the reference view of a &BigDecimal / &BigInt denotes the same number
+    pub broadcast proof fn b_into_ref_dec<'a>(n: &'a BigDecimal)
+        ensures (#[trigger] into_ref(n)).i() == n.i(), into_ref(n).s() == n.s(), into_ok(n)
+    {
+        broadcast use crate::shim::axiom_spec_magnitude;
+        let g = sgn(sign_of(n.i()));
+        assert(g * iabs(n.i()) == n.i()) by (nonlinear_arith) requires g == isgn(n.i());
+    }
+    pub broadcast proof fn b_into_ref_int<'a>(n: &'a BigInt)
+        ensures (#[trigger] into_ref(n)).i() == n@, into_ref(n).s() == 0, into_ok(n)
+    {
+        broadcast use crate::shim::axiom_spec_magnitude;
+        let g = sgn(sign_of(n@));
+        assert(g * iabs(n@) == n@) by (nonlinear_arith) requires g == isgn(n@);
+    }
+    pub broadcast proof fn b_into_ref_ref<'a>(n: BigDecimalRef<'a>)
+        ensures #[trigger] into_ref(n) == n, into_ok(n)
+    { broadcast use {axiom_ref_into_self, axiom_ref_into_self_obeys}; }
+    pub broadcast group val_algebra { crate::vs::b_val_at_self, crate::vs::b_val_at_zero, crate::vs::b_val_at_neg, b_into_ref_dec, b_into_ref_int, b_into_ref_ref }
 /// std's reflexive `impl<T> From<T> for T` is the identity (assumed)
 #[verifier::external_body]
 pub broadcast proof fn axiom_ref_into_self<'a>(x: BigDecimalRef<'a>)
@@ -180,6 +187,9 @@ pub broadcast proof fn axiom_ref_into_self_obeys<'a>()
     ensures #[trigger] <BigDecimalRef<'a> as FromSpec<BigDecimalRef<'a>>>::obeys_from_spec()
 {}
 
+}
+pub use ax::*;
+
 // ------------------------------------------------------------------ comparison specs on reference views
 /// outside the representation invariant (unreachable for exec values) the result is left unspecified
 pub uninterp spec fn ref_eq_unspecified<'a, 'b>(a: BigDecimalRef<'a>, b: BigDecimalRef<'b>) -> bool;
@@ -189,117 +199,4 @@ pub open spec fn ref_eq_spec<'a, 'b>(a: BigDecimalRef<'a>, b: BigDecimalRef<'b>)
 }
 pub open spec fn ref_cmp_spec<'a, 'b>(a: BigDecimalRef<'a>, b: BigDecimalRef<'b>) -> Ordering {
     if a.wf() && b.wf() { val_cmp(a.i(), a.s(), b.i(), b.s()) } else { ref_cmp_unspecified(a, b) }
-}
-
-// ------------------------------------------------------------------ value algebra: everything at a common scale M
-/// the integer i*10^(M-s): value of (i,s) in units of 10^-M   (M >= s)
-pub open spec fn val_at(i: int, s: int, m: int) -> int { i * pow10(m - s) }
-
-pub proof fn lemma_val_at_rescale(i: int, s: int, m: int, m2: int)
-    requires s <= m <= m2
-    ensures val_at(i, s, m2) == val_at(i, s, m) * pow10(m2 - m)
-{
-    lemma_pow10_add(m - s, m2 - m);
-    assert(i * (pow10(m - s) * pow10(m2 - m)) == (i * pow10(m - s)) * pow10(m2 - m)) by (nonlinear_arith);
-}
-pub proof fn lemma_val_at_neg(i: int, s: int, m: int)
-    ensures val_at(-i, s, m) == -val_at(i, s, m)
-{
-    assert((-i) * pow10(m - s) == -(i * pow10(m - s))) by (nonlinear_arith);
-}
-pub proof fn lemma_val_at_zero(s: int, m: int) ensures val_at(0, s, m) == 0 {}
-pub proof fn lemma_val_at_self(i: int, s: int) ensures val_at(i, s, s) == i {}
-
-pub proof fn lemma_cancel(x: int, y: int, p: int)
-    requires p > 0, x * p == y * p
-    ensures x == y
-{
-    assert(x == y) by (nonlinear_arith) requires p > 0, x * p == y * p;
-}
-
-/// is_sum <==> the sum equation at any common scale M >= all three scales
-pub proof fn lemma_sum_at(ri: int, rs: int, ai: int, a_s: int, bi: int, bs: int, m: int)
-    requires m >= rs, m >= a_s, m >= bs
-    ensures is_sum(ri, rs, ai, a_s, bi, bs) <==> val_at(ri, rs, m) == val_at(ai, a_s, m) + val_at(bi, bs, m)
-{
-    let m0 = imax(rs, imax(a_s, bs));
-    let p = pow10(m - m0);
-    lemma_pow10_pos(m - m0);
-    lemma_val_at_rescale(ri, rs, m0, m);
-    lemma_val_at_rescale(ai, a_s, m0, m);
-    lemma_val_at_rescale(bi, bs, m0, m);
-    let x = val_at(ri, rs, m0); let y = val_at(ai, a_s, m0) + val_at(bi, bs, m0);
-    assert((val_at(ai, a_s, m0) + val_at(bi, bs, m0)) * p == val_at(ai, a_s, m0) * p + val_at(bi, bs, m0) * p) by (nonlinear_arith);
-    if x * p == y * p { lemma_cancel(x, y, p); }
-}
-
-/// same_val <==> equal at any common scale
-pub proof fn lemma_same_at(ai: int, a_s: int, bi: int, bs: int, m: int)
-    requires m >= a_s, m >= bs
-    ensures same_val(ai, a_s, bi, bs) <==> val_at(ai, a_s, m) == val_at(bi, bs, m)
-{
-    let m0 = imax(a_s, bs);
-    let p = pow10(m - m0);
-    lemma_pow10_pos(m - m0);
-    lemma_val_at_rescale(ai, a_s, m0, m);
-    lemma_val_at_rescale(bi, bs, m0, m);
-    let x = val_at(ai, a_s, m0); let y = val_at(bi, bs, m0);
-    if x * p == y * p { lemma_cancel(x, y, p); }
-}
-
-/// val_cmp at any common scale
-pub proof fn lemma_cmp_at(ai: int, a_s: int, bi: int, bs: int, m: int)
-    requires m >= a_s, m >= bs
-    ensures val_cmp(ai, a_s, bi, bs) == ord_of(val_at(ai, a_s, m), val_at(bi, bs, m))
-{
-    let m0 = imax(a_s, bs);
-    let p = pow10(m - m0);
-    lemma_pow10_pos(m - m0);
-    lemma_val_at_rescale(ai, a_s, m0, m);
-    lemma_val_at_rescale(bi, bs, m0, m);
-    let x = val_at(ai, a_s, m0); let y = val_at(bi, bs, m0);
-    assert(x < y ==> x * p < y * p) by (nonlinear_arith) requires p > 0;
-    assert(x > y ==> x * p > y * p) by (nonlinear_arith) requires p > 0;
-}
-
-/// is_prod <==> product equation at a common scale: r at M, a at Ma, b at Mb with M == Ma + Mb
-pub proof fn lemma_prod_at(ri: int, rs: int, ai: int, a_s: int, bi: int, bs: int, ma: int, mb: int)
-    requires ma >= a_s, mb >= bs, ma + mb >= rs
-    ensures is_prod(ri, rs, ai, a_s, bi, bs) <==> val_at(ri, rs, ma + mb) == val_at(ai, a_s, ma) * val_at(bi, bs, mb)
-{
-    let m = ma + mb;
-    let m0 = imax(rs, a_s + bs);
-    let p = pow10(m - m0);
-    lemma_pow10_pos(m - m0);
-    lemma_val_at_rescale(ri, rs, m0, m);
-    lemma_val_at_rescale(ai * bi, a_s + bs, m0, m);
-    lemma_pow10_add(ma - a_s, mb - bs);
-    assert(val_at(ai, a_s, ma) * val_at(bi, bs, mb) == val_at(ai * bi, a_s + bs, m)) by (nonlinear_arith)
-        requires val_at(ai, a_s, ma) == ai * pow10(ma - a_s), val_at(bi, bs, mb) == bi * pow10(mb - bs),
-                 val_at(ai * bi, a_s + bs, m) == (ai * bi) * pow10(m - (a_s + bs)),
-                 pow10(m - (a_s + bs)) == pow10(ma - a_s) * pow10(mb - bs);
-    let x = val_at(ri, rs, m0); let y = val_at(ai * bi, a_s + bs, m0);
-    if x * p == y * p { lemma_cancel(x, y, p); }
-}
-
-/// difference: r == a - b
-pub open spec fn is_diff(ri: int, rs: int, ai: int, a_s: int, bi: int, bs: int) -> bool {
-    is_sum(ri, rs, ai, a_s, -bi, bs)
-}
-
-/// scale of a product: a.s + b.s, or an operand's own scale (one/zero shortcuts), possibly lowered by
-/// normalized() (at most the number of digits, < 2^60 by the size assumption)
-pub open spec fn mul_scale_ok(rs: int, a_s: int, bs: int) -> bool {
-    imin(a_s + bs, imin(a_s, bs)) - 0x1000_0000_0000_0000 <= rs <= imax(a_s + bs, imax(a_s, bs))
-}
-
-/// a value is zero iff its unscaled integer is
-pub proof fn lemma_same_zero(i: int, s: int)
-    ensures same_val(i, s, 0, 0) <==> i == 0
-{
-    let m = imax(s, 0);
-    lemma_pow10_pos(m - s);
-    assert(0 * pow10(m - 0) == 0);
-    if i != 0 { assert(i * pow10(m - s) != 0) by (nonlinear_arith) requires i != 0, pow10(m - s) > 0; }
-    else { assert(0 * pow10(m - s) == 0); }
 }
